@@ -87,6 +87,11 @@ func init() {
 		"bounded: MatchRequirements grid over requirement/own/attested subsets of {a=1,b=1,a=2}, auditor lists over {U1,U2} incl. duplicates; S-attr histories to the stated depth"},
 		Extra: CheckMatchRequirements,
 		Runs:  []runSpec{{"S-attr", 9, 13, nil}, {"S-attr-leased", 4, 6, nil}}}
+	props["C19"] = propSpec{Checker: func() Checker { return chkC19{} }, Assume: []string{
+		"one-directional as stated: every admitted create-deployment request satisfies every limit; rejected requests are only required to leave the state unchanged",
+		"bounded: all single boundary values and all pairs (thorough: arithmetic triples) of the limit dimensions; stored-state predicate on every reachable state of S-life"},
+		Extra: CheckAdmissionGrid,
+		Runs:  []runSpec{{"S-life", 4, 5, nil}}}
 	props["C03"] = propSpec{Checker: func() Checker { return chkC03{} }, Assume: common,
 		Runs: []runSpec{{"S-escrow", 5, 7, nil}, {"S-leased", 5, 6, nil}, {"S-life", 4, 6, nil}}}
 	props["C04"] = propSpec{Checker: func() Checker { return chkC04{} }, Assume: common,
